@@ -69,6 +69,14 @@ func init() {
 		raw, _ := base64.StdEncoding.DecodeString(str(a["b64"]))
 		os.WriteFile(p, raw, 0o644)
 		key := pool()[4].Pub
+		// inspections of a (still valid) mutated layout record the CURRENT directory: run in an empty
+		// one, not in the directory the check was started from (hashing /verif's build output took
+		// longer than the deadline on a cold disk and was reported as a hang)
+		cwd := filepath.Join(dir, "svcwd")
+		safeRemoveAll(cwd)
+		os.MkdirAll(cwd, 0o755)
+		os.Chdir(cwd)
+		defer os.Chdir(origWD)
 		res := classOf(func() error {
 			md, err := intoto.LoadMetadata(p)
 			if err != nil {
